@@ -45,6 +45,25 @@ def run(tier, rep, replay=None):
         b2, _ = C.validate_lines(w, "Trace_Codec", "Lines.cfg", [x])
         if b2 != [0]:
             raise C.Infra("binding canary accepted")
+    # structure-aware class "reshape-component" (in package: the tkn20 ciphertext header is re-encoded around one component of another shape)
+    tb = C.go_build_intree(w, "abe/cpabe/tkn20/internal/tkn")
+    rp = os.path.join(w, "reshape.ndjson")
+    C.run([tb, "-test.run", "TestVerifReshape", "-test.count=1"], env=dict(os.environ, VERIF_OUT=rp, VERIF_SEED=str(C.SEED)), timeout=1500, what="in-tree reshape recorder")
+    rlines = C.read_ndjson(rp)
+    if len(rlines) < 50:
+        raise C.Infra("reshape recorder produced %d lines" % len(rlines))
+    d = os.path.join(w, "reshape")
+    os.makedirs(d, exist_ok=True)
+    C.stage_specs(d, "C10")
+    rbad, _ = C.validate_lines(d, "Trace_Reshape", "Lines.cfg", rlines)
+    for i in rbad:
+        ln = rlines[i]
+        rep.violation("tkn20:reshape:%s:%dx%d:%s" % (ln["comp"].split("[")[0], ln["rows"], ln["cols"], "panic" if ln["panics"] else "accepted"),
+                      {"observed": ln, "explain": "a tkn20 ciphertext re-encoded around one header component of another shape made DecryptCCA panic / was accepted (Trace_Reshape.tla)"})
+    x = dict(rlines[0]); x["panics"] = 1
+    if C.validate_lines(d, "Trace_Reshape", "Lines.cfg", [x])[0] != [0]:
+        raise C.Infra("reshape binding canary accepted")
+    rep.add(reshaped_ciphertexts=len(rlines))
     # coverage lint: exported decoding entry points (go/ast scan of /repo) vs adapter table
     ads = C.run([drv, "-list"], timeout=300).stdout.strip().splitlines()
     adapters = sorted({a.split("\t")[0] for a in ads})
